@@ -104,10 +104,28 @@ func fieldOpts(fd protoreflect.FieldDescriptor) fopts {
 
 type gen struct {
 	g    *hx.Rng
-	mode int // 0 random, 1 empty, 2 maximal
+	mode int // 0 random, 1 empty, 2 maximal, 3 long (every string / bytes field crosses a length-prefix boundary)
+}
+
+// boundary lengths of the varint length prefix (1 -> 2 bytes at 128, 2 -> 3 bytes at 16384)
+var boundaryLens = []int{60, 100, 127, 128, 129, 200, 300}
+
+func (c *gen) long() string {
+	n := boundaryLens[c.g.Intn(len(boundaryLens))]
+	if c.g.Chance(1, 200) {
+		n = 16383 + c.g.Intn(3)
+	}
+	b := make([]byte, n)
+	for i := range b {
+		b[i] = byte('a' + (i*7+n)%26)
+	}
+	return string(b)
 }
 
 func (c *gen) str() string {
+	if c.mode == 3 || (c.mode == 0 && c.g.Chance(1, 6)) {
+		return c.long()
+	}
 	switch c.g.Intn(4) {
 	case 0:
 		return "a"
@@ -165,6 +183,9 @@ func (c *gen) scalar(fd protoreflect.FieldDescriptor, o fopts) protoreflect.Valu
 	case protoreflect.BytesKind:
 		if o.customType != "" {
 			return protoreflect.ValueOfBytes([]byte(c.intStr()))
+		}
+		if c.mode == 3 || (c.mode == 0 && c.g.Chance(1, 8)) {
+			return protoreflect.ValueOfBytes([]byte(c.long()))
 		}
 		return protoreflect.ValueOfBytes(c.g.Bytes(1 + c.g.Intn(24)))
 	case protoreflect.EnumKind:
@@ -319,6 +340,8 @@ func main() {
 				c.mode = 1
 			} else if k == 1 {
 				c.mode = 2
+			} else if k == 2 || k == 3 {
+				c.mode = 3
 			}
 			m := mt.New()
 			c.fill(m, 0)
@@ -332,8 +355,12 @@ func main() {
 				obs = "rej"
 				out.Count("gogo-unmarshal-error")
 			} else {
-				gb, err := gogoproto.Marshal(gm)
-				if err != nil {
+				var gb []byte
+				var err error
+				if p, info := hx.NoPanic(func() { gb, err = gogoproto.Marshal(gm) }); p {
+					obs = "panic gogo-marshal " + strings.ReplaceAll(info, " ", "_")
+					out.Count("gogo-marshal-panic")
+				} else if err != nil {
 					obs = "rej"
 				} else {
 					m2 := mt.New()
